@@ -20,7 +20,7 @@ Extraction "model.ml"
   PubSub.init PubSub.step PubSub.run_count PubSub.panicked PubSub.settled
   PubSubSpec.c01_state_ok PubSubSpec.live_ok PubSubSpec.delivered_all PubSubSpec.c16_state_ok PubSubSpec.obs_c01_ok PubSubSpec.obs_delivered_all PubSubSpec.obs_all_adopted PubSubSpec.obs_c16_ok PubSubSpec.obs_c09_bounded_ok PubSubSpec.completed PubSubSpec.obs_streams_polled_to_pending PubSubSpec.obs_repoll_ok
   ReqRep.rinit ReqRep.rstep ReqRep.rrun_count ReqRep.rpanicked ReqRep.rsettled
-  ReqRepSpec.c02_state_ok ReqRepSpec.c10_state_ok ReqRepSpec.obs_c02_ok ReqRepSpec.obs_replies_delivered ReqRepSpec.obs_c10_ok ReqRepSpec.rcompleted ReqRepSpec.obs_rr_c09_bounded_ok ReqRepSpec.obs_c10_final_ok ReqRepSpec.obs_requests_flushed ReqRepSpec.obs_no_request_stranded ReqRepSpec.obs_rr_flushed_at_completion ReqRepSpec.obs_rstreams_polled_to_pending ReqRepSpec.obs_rr_repoll_ok ReqRepSpec.obs_c10_rebind_justified ReqRepSpec.obs_c02_no_pull_while_request_waits ReqRepSpec.obs_replier_not_polled_after_end ReqRepSpec.obs_requestor_not_polled_after_end ReqRepSpec.obs_rr_no_pull_after_close PubSubSpec.obs_no_poll_after_end PubSubSpec.obs_no_pull_after_close
+  ReqRepSpec.c02_state_ok ReqRepSpec.c10_state_ok ReqRepSpec.obs_c02_ok ReqRepSpec.obs_replies_delivered ReqRepSpec.obs_c10_ok ReqRepSpec.rcompleted ReqRepSpec.obs_rr_c09_bounded_ok ReqRepSpec.obs_c10_final_ok ReqRepSpec.obs_c11_replier_answered ReqRepSpec.obs_requests_flushed ReqRepSpec.obs_no_request_stranded ReqRepSpec.obs_rr_flushed_at_completion ReqRepSpec.obs_rstreams_polled_to_pending ReqRepSpec.obs_rr_repoll_ok ReqRepSpec.obs_c10_rebind_justified ReqRepSpec.obs_c02_no_pull_while_request_waits ReqRepSpec.obs_replier_not_polled_after_end ReqRepSpec.obs_requestor_not_polled_after_end ReqRepSpec.obs_rr_no_pull_after_close PubSubSpec.obs_no_poll_after_end PubSubSpec.obs_no_pull_after_close
   ClientPubSub.subscribe ClientPubSub.publish
   ClientReqRep.crun ClientReqRep.c_done
   TopicName.try_from TopicName.create TopicName.is_valid TopicName.print TopicSpec.name_ok
